@@ -5,7 +5,7 @@ History + executable model: every public call is recorded at the boundary; after
 write; and for all cells at the end) the answer is compared with a from-scratch compile of the
 same workbook with the current inputs.
 """
-from vp import hist, wb, wbgen
+from vp import realbooks, hist, wb, wbgen
 
 PROP = 'C01'
 LEVEL = 'exploration'
@@ -21,7 +21,8 @@ FLOORS = {
               'trans:number->blank': 20, 'trans:0->FALSE': 3, 'trans:1->TRUE': 3,
               'trans:blank->number': 10, 'write_before_dependant_built': 20,
               'cfg:mem': 20, 'cfg:xlsx': 20, 'cfg:yml': 5, 'cfg:json': 5, 'cfg:pkl': 5,
-              'dependant_compares_after_write': 1000, 'failed_builds': 15},
+              'dependant_compares_after_write': 1000, 'failed_builds': 15, 'real_book_histories': 50,
+              'real_value_compares': 600},
     'thorough': {'histories': 3000, 'compares': 100000, 'trans:0->FALSE': 50, 'trans:1->TRUE': 50,
                  'trans:number->blank': 300, 'trans:blank->number': 200,
                  'write_before_dependant_built': 300, 'cfg:xlsx': 300, 'cfg:pkl': 100},
@@ -372,6 +373,8 @@ def run(ctx):
     i = 0
     if ctx.shard == 0:
         used_area_growth(ctx)
+    # histories on the workbooks shipped with the repository (several hundred hand-written formulas each)
+    realbooks.run_cases(ctx, realbooks.c01_case, realbooks.acyclic_books(), 8 if ctx.quick else 80, fraction=0.3)
     while not ctx.out_of_time():
         i += 1
         spec, meta = wbgen.dag(rng)
@@ -391,4 +394,7 @@ def run(ctx):
 
 
 def replay(ctx, case):
+    if case.get('kind') == 'real-book':
+        realbooks.c01_case(ctx, case['book'], case['case_seed'])
+        return
     one_history(ctx, case['spec'], case['meta'], case['config'], case['eager'], ops=case['ops'])
